@@ -5,6 +5,7 @@ COMMON_ASSUME = [
     "reference model of DESIGN.md section 2 (cross-checked against an operational twin in harness/model)",
     "SHA-256 / SHA-512/256 from the Go standard library; no hash collisions among generated leaves (distinct in their first 12 bytes)",
     "pgregory.net/rapid v1.3.0 generators; every random choice is a rapid draw seeded from VERIF_SEED",
+    "slices returned by Prove, GetRoots and GetLeafHashPositions are, once judged, overwritten by the harness and kept: after later calls they must read as the harness left them",
     "a quarter of the generated map forests run on caller-supplied stores (harness implementations of NodesInterface / CachedLeavesInterface with plain map semantics and descending ForEach order)",
 ]
 
@@ -41,7 +42,7 @@ CHECKS = {
                 "DetectOffset (validated by walking the returned bits from the geometric root); ProofPositions for every non-empty leaf subset of n<=16 "
                 "(thorough 20) leaves in layouts Rows(n), Rows(n)+1 and 63. Also enumerated: 27 (thorough 54) LARGE ProofPositions instances - forests of 20000..65536 (150000) leaves with tens of thousands of mixed-row non-nested targets built from a fixed pattern - in the same three layouts. Generated (rapid): heights 0..63 with boundary offsets/leaf counts and random "
                 "64-bit values, mixed-row non-nested target sets. Non-trivial: (height>=1 and row>=1) or >=2 targets or n>=2; generated points that fall "
-                "inside the enumerated sub-space are not counted again.",
+                "inside the enumerated sub-space are not counted again. In the generated part the slices returned by RootPositions and (up to 64 targets) ProofPositions are, once judged, overwritten by the harness and the same question is asked again.",
         "assumptions": ["independent geometry of harness/model (row r of an R-row layout starts at 2^(R+1)-2^(R+1-r))", "translatePos is unexported: covered through MapPollard coordinates in C01/C02/C09/C10"],
     },
 }
@@ -288,9 +289,9 @@ CHECKS["C13"] = {
             "stream when it has at most 2500 (thorough 6000) bytes, otherwise the first and last 700 offsets plus +-40 around 8-24 rapid-drawn offsets: restore "
             "must return an error or a state identical to the original, never panic, and report no more bytes than it consumed (every 7th prefix also through "
             "the data-with-EOF and chunked readers); (c) a sink failing at each of the same offsets, refusing the crossing write completely or accepting part "
-            "of it: non-nil error, reported count <= accepted bytes (== for the refusing sink), no panic, original unchanged; (d) the original and all eight "
+            "of it: non-nil error, reported count <= accepted bytes (== for the refusing sink), no panic, original unchanged, and one more write to a healthy sink afterwards gives a stream of the first write's length that restores to the same state; (d) the original and all eight "
             "restored copies are driven through 4-7 further generated steps (>=3 blocks and an undo) and compared with the model and with each other after "
-            "every step. Non-trivial: state with >=1 deletion, an empty root or a leaf above row 0, stream >= 200 bytes.",
+            "every step. Non-trivial: state with >=1 deletion, an empty root or a leaf above row 0, stream >= 200 bytes. Deterministic probe per run: a partial forest started from the bare roots of a small forest behind 2^31 .. 2^62+2^61 opaque leaves remembers two leaves, is written, restored (one-byte reader, every strict prefix), and both copies take two more blocks.",
     "assumptions": COMMON_ASSUME + ["on an error path the reported byte count is only required to lie between 0 and the bytes actually consumed / accepted (a partially delivered read or write may or may not be counted)",
                                     "MapPollard streams follow Go map iteration order: streams are never compared byte for byte, only after parsing"],
 }
